@@ -38,7 +38,9 @@ HOSTILE_WORDS = ['"quoted"', "it's", 'a,b', 'two words', 'naïve', 'señor', 'gr
                  "''", 'x;y', ' lead', 'trail ', 'q"', '"open', 'close"', 'a""b', ',', "'", '\\', 'ñ', 'é', '€uro',
                  'tab?', 'a  b', '"a"b"', 'Ωmega', 'x|y', '4c|', '#', '-', '--', '~', '{x}', '"a b" c',
                  # decomposed accents and singleton code points: text is kept code point for code point, never normalised
-                 'cafe\u0301', 'man\u0303ana', '\u212bngstro\u0308m', '\u2126', 'fac\u0327ade', '\ufb01n']
+                 'cafe\u0301', 'man\u0303ana', '\u212bngstro\u0308m', '\u2126', 'fac\u0327ade', '\ufb01n',
+                 # characters that str.splitlines() treats as line boundaries but that are not Humdrum record separators
+                 'la\u2028li', 'a\x0cb', 'x\x85y', 'p\u2029q', 'v\x0bt', 'f\x1cs', '\x1e', 'nb\xa0sp']
 SEPARATOR_WORDS = ['col·le', 'me@example.org', '@', '·', 'a@b·c']
 
 
